@@ -260,7 +260,7 @@ Definition bi_dict (sp:span) (argv:list value) : Comp value :=
 Definition bi_list (sp:span) (argv:list value) : Comp value := Ret (VList argv).
 Definition bi_string (sp:span) (argv:list value) : Comp value :=
   vs <- match_arguments sp argv (orp is_num is_str) [0%nat; 1%nat] ;;
-  match vs with [] => Ret (VStr []) | [VInt n] => Ret (VStr (str_of_int n)) | [VFloat _] | [VComplex _ _] => raise c_unmodelled sp | [v] => Ret v | _ => raise c_value sp end.
+  match vs with [] => Ret (VStr []) | [VInt n] => Ret (VStr (str_of_int n)) | [VFloat f] => Ret (VStr (show_float f)) | [VComplex r i] => Ret (VStr (show_complex r i)) | [v] => Ret v | _ => raise c_value sp end.
 Definition bi_nil (sp:span) (argv:list value) : Comp value := check_arity sp (length argv) [0%nat] ;;; Ret VNil.
 Definition bi_exception (sp:span) (argv:list value) : Comp value := vs <- map_strict argv ;; Ret (VErr [sp] vs).
 
@@ -481,6 +481,11 @@ Definition bi_float (sp:span) (argv:list value) : Comp value :=
   match vs with
   | VInt n :: rest => check_arity sp (length vs) [1%nat] ;;; match float_of_int n with Some f => Ret (VFloat f) | None => raise c_arith sp (* repaired: host OverflowError *) end
   | VFloat f :: rest => check_arity sp (length vs) [1%nat] ;;; Ret (VFloat f)
+  | [VStr s] | [VStr s; VInt 10] =>                       (* float(string): FloatText.parse_float_text, the double nearest to the decimal *)
+      match FloatText.parse_float_text s with
+      | FloatText.PFloat f => Ret (VFloat f) | FloatText.PBad => raise c_value sp | FloatText.PUnmodelled => raise c_unmodelled sp end
+  | [VStr _; VInt _] => raise c_unmodelled sp             (* other bases: integer.fraction digits of that base *)
+  | [VStr _; _] => raise c_type sp
   | _ => raise c_unmodelled sp end.
 
 (* ㅂㅅ: complex(real, imag) of CPython - either part may itself be complex:  real - Im(imag)  and  Re(imag) + Im(real) *)
